@@ -1,11 +1,16 @@
 (* C14 — find_link re-finds lost features and emits only admissible ones.
    PROVED here: the SAFETY half, for the model of FindLinker as the code is now
    (isotropic parameters, integer pixel coordinates, integer images).
-   NOT a theorem (monitored only by vp/props/c14.py on generated blob movies):
-   the COMPLETENESS half ("returns the complete trajectories whatever is
-   withheld") -- it depends on the blob images (a masked local maximum
-   reappears at the blob), an analytic statement like C05.
-   Only statements closed by [exact]; proofs live in Proofs/FindLink.v.
+   The COMPLETENESS half ("returns the complete trajectories whatever is
+   withheld"; "equals detect-then-link") is proved at the end of this file,
+   (9)-(13), for the model with FindLinker's image search abstracted into a
+   relocation oracle: under executable hypotheses on the blob tracks plus ONE
+   hypothesis on the oracle (finds: it returns the unknown blobs in range).
+   That the real image search satisfies [finds] on blob images (a masked local
+   maximum reappears at the blob) stays an analytic statement like C05: it is
+   checked by enumeration on an example (13b) and otherwise monitored by
+   vp/props/c14.py on generated blob movies.
+   Only statements closed by [exact]; proofs live in Proofs/FindLink.v, Proofs/FindLink2.v.
 
    Vocabulary (Proofs/FindLink.v):
      far k S a b        : S*S <= k*k*|a-b|^2          (a, b at least S/k apart)
@@ -15,7 +20,7 @@
      bg_covers P        : 0 < k, 0 < separation, slice_radius*k + separation*k <= bg_radius*k *)
 From Coq Require Import ZArith NArith QArith List Permutation.
 From TP Require Import Model.Assign Model.Link Model.LinkCheck Model.Dilation Model.FindLink Model.FindLinkCheck
-     Proofs.Cands Proofs.Labels Proofs.FindLink.
+     Model.FindLink2 Proofs.Cands Proofs.Labels Proofs.FindLink Proofs.FindLink2.
 Import ListNotations.
 Open Scope Z_scope.
 
@@ -189,3 +194,191 @@ Example C14_example_monitor :
   check_movie mp [[f [32; 20] 0%nat (Some (100 # 1)%Q) false]; [f [33; 20] 0%nat (Some (100 # 1)%Q) true]] = 0%N /\
   check_movie mp [[f [32; 20] 0%nat (Some (100 # 1)%Q) false]; [f [36; 20] 0%nat None true]] = 4%N.
 Proof. split; reflexivity. Qed.
+
+(* ================================================================ COMPLETENESS
+   (9)-(13): the completeness half, for the MODEL of FindLinker with the image
+   search abstracted into the frame's relocation oracle.  Proofs/FindLink2.v.
+
+   A blob movie: first frame B0; per later frame the true blob positions B
+   (blob i = i-th entry of every frame), the detections ds handed to the linker
+   (the others are withheld) and the frame's relocation oracle rel
+   (bframe = (B, ds, rel); linker_input forgets B).
+
+   Hypotheses, exactly those used (all but the last are booleans, Model/FindLink2.v,
+   evaluated in Coq on the generated movies by vp/props/c14.py):
+     moves_b  m Bp B : same number of blobs; blob i moves AT MOST search_range
+                       (d2w <= mR2: the property's "less than" is more than enough)
+     cross_b  m Bp B : no blob comes within search_range of the PREVIOUS position
+                       of ANOTHER blob  (for i <> j: d2w Bp_i B_j > mR2).
+                       This is what "well-separated" must mean for the linker;
+                       it follows from blobs of one frame being more than
+                       2*search_range apart, and is weaker.  Neither separation
+                       nor the 2*search_range merging of lost subnets adds a
+                       constraint: under cross_b every source has its own blob
+                       as the only candidate, however the subnets are merged.
+     given_b  B ds   : ds is a duplicate-free selection of B -- ANY subset is
+                       withheld; nothing that is not a blob is detected
+     first frame complete: B0 itself is the first frame
+     length B0 <= max_size: merge_lost_subnets may chain ALL lost features into
+                       one subnet (each within 2*search_range of the next), so
+                       SubnetOversizeException is excluded only by
+                       #blobs <= MAX_SUB_NET_SIZE (or by blobs > 2*search_range apart)
+     finds m Bp B rel: the ORACLE hypothesis (not a boolean; it is the analytic
+                       statement about the blob images): searched around
+                       previous blob positions pos, knowing blobs known, asked
+                       for as many points as there are blobs of B within
+                       search_range of pos that are not known, rel returns
+                       exactly these blobs (anything it returns beyond
+                       search_range is ignored).  For FindLinker's image search
+                       this needs what (2)-(4) say it cannot do otherwise: the
+                       blob outside the margin, mass >= minmass, at least
+                       separation away from every known feature and from the
+                       other candidates, above the percentile threshold, a local
+                       maximum of the masked image, and NO other such maximum
+                       within search_range.  So "well-separated" must also grant
+                       blobs >= separation apart -- more than the property text
+                       says explicitly.  finds_b checks the hypothesis by
+                       enumeration for a concrete oracle (example (13b)).
+   No hypothesis on memory, none on the metric (weights may be anything). *)
+
+(* (9) one step: the live sources are the blobs of the previous frame, source of
+   blob i labelled i (tracks_inv).  Whatever is withheld, the step returns the
+   given detections plus added features, every blob of the new frame is there
+   under its own label and nothing else (frame_complete), no exception is
+   raised, and the new state is again the blobs under their own labels. *)
+Theorem C14_step_complete :
+  forall m mem max_size rel st Bp B ds,
+    tracks_inv Bp st -> moves m Bp B -> cross m Bp B -> given B ds -> finds m Bp B rel ->
+    (length Bp <= max_size)%nat ->
+    exists st' labs added,
+      find_step m mem max_size no_pred rel st ds = Ok (st', labs, ds ++ added) /\
+      length labs = length (ds ++ added) /\
+      frame_complete B labs (ds ++ added) /\ tracks_inv B st'.
+Proof. exact find_step_tracks. Qed.
+Print Assumptions C14_step_complete.
+
+(* the hypotheses of (9), unfolded *)
+Theorem C14_hypotheses_unfolded :
+  forall m Bp B ds rel,
+    (moves m Bp B <-> (length B = length Bp /\
+        forall i p q, nth_error Bp i = Some p -> nth_error B i = Some q -> d2w (mw m) p q <= mR2 m)) /\
+    (cross m Bp B <->
+        forall i j p q, nth_error Bp i = Some p -> nth_error B j = Some q -> i <> j -> mR2 m < d2w (mw m) p q) /\
+    (given B ds <-> (NoDup ds /\ incl ds B)) /\
+    (finds m Bp B rel <->
+        forall pos known, incl pos Bp -> NoDup pos -> incl known B -> NoDup known ->
+          unknown_in_range m B pos known <> [] ->
+          Permutation (filter (in_range_any m pos) (rel pos known (length (unknown_in_range m B pos known))))
+                      (unknown_in_range m B pos known)).
+Proof. exact (fun m Bp B ds rel => conj (iff_refl _) (conj (iff_refl _) (conj (iff_refl _) (iff_refl _)))). Qed.
+
+(* [frame_complete], unfolded: the (label, position) pairs of the frame are
+   exactly the pairs (i, blob i) *)
+Theorem C14_frame_complete_unfolded :
+  forall B labs D, frame_complete B labs D <-> Permutation (combine labs D) (combine (seq 0 (length B)) B).
+Proof. exact (fun B labs D => iff_refl _). Qed.
+
+(* (10) whole movies, by induction over the frames: for ANY pattern of withheld
+   detections after the first frame the model of find_link raises nothing, and
+   its output is the first frame followed, per frame, by the given detections
+   plus added features forming exactly the blobs under their own labels. *)
+Theorem C14_movie_complete :
+  forall m mem max_size B0 (frames : list bframe),
+    movie_hyp_b m B0 (map fst frames) = true ->      (* moves_b, cross_b, given_b for every frame *)
+    oracles_find m B0 frames ->                      (* finds for every frame's oracle *)
+    (length B0 <= max_size)%nat ->
+    exists out,
+      find_link_model m mem max_size no_pred B0 (map linker_input frames)
+      = Ok ((seq 0 (length B0), B0) :: out) /\ out_complete frames out.
+Proof. exact find_link_complete. Qed.
+Print Assumptions C14_movie_complete.
+
+Theorem C14_out_complete_unfolded :
+  forall B ds rel frames labs D out,
+    out_complete ((B, ds, rel) :: frames) ((labs, D) :: out) <->
+    ((exists added, D = ds ++ added) /\ frame_complete B labs D /\ out_complete frames out).
+Proof. exact (fun B ds rel frames labs D out => iff_refl _). Qed.
+
+(* (11) detect-then-link (the plain Linker on the completely detected frames) gives
+   blob i the label i in every frame ... *)
+Theorem C14_detect_then_link :
+  forall m mem max_size B0 Bs,
+    blobs_ok m B0 Bs ->                               (* moves and cross between consecutive frames *)
+    (length B0 <= max_size)%nat ->
+    link_iter m mem max_size no_pred (B0 :: Bs) = Ok (map (fun B => seq 0 (length B)) (B0 :: Bs)).
+Proof. exact link_iter_tracks. Qed.
+Print Assumptions C14_detect_then_link.
+
+(* (12) ... hence, whatever is withheld, find_link's output equals detect-then-link's:
+   the same features under the same labels in every frame (same_tracks: per frame
+   the (label, position) pairs are a permutation of each other) -- in particular
+   the same partition of the detections into trajectories, all trajectories complete. *)
+Theorem C14_equals_detect_then_link :
+  forall m mem max_size B0 (frames : list bframe),
+    movie_hyp_b m B0 (map fst frames) = true -> oracles_find m B0 frames ->
+    (length B0 <= max_size)%nat ->
+    exists out dl,
+      find_link_model m mem max_size no_pred B0 (map linker_input frames) = Ok out /\
+      link_iter m mem max_size no_pred (B0 :: map (fun f : bframe => fst (fst f)) frames) = Ok dl /\
+      same_tracks out dl (B0 :: map (fun f : bframe => fst (fst f)) frames).
+Proof. exact find_link_equals_detect_then_link. Qed.
+Print Assumptions C14_equals_detect_then_link.
+
+(* the hypothesis cross_b follows from a per-frame separation: blobs of the previous
+   frame farther apart than 2*search_range, each moving at most search_range
+   (isotropic metric as built by mk_params: weight k*k per axis, R = search_range*k) *)
+Theorem C14_cross_from_twice_search_range :
+  forall k n R Bp B,
+    0 <= R ->
+    let m := {| mw := repeat (k * k) n; mR2 := R * R |} in
+    Forall (fun p => length p = n) Bp -> Forall (fun p => length p = n) B ->
+    moves m Bp B ->
+    (forall i j p p', nth_error Bp i = Some p -> nth_error Bp j = Some p' -> i <> j ->
+                      4 * (R * R) < d2w (mw m) p p') ->
+    cross m Bp B.
+Proof. exact cross_of_twice. Qed.
+Print Assumptions C14_cross_from_twice_search_range.
+
+(* the oracle hypothesis is satisfiable for EVERY movie (the ideal oracle, which
+   returns the unknown blobs within range), and checkable for a concrete oracle *)
+Theorem C14_ideal_oracle_finds : forall m Bp B, finds m Bp B (blob_oracle m B).
+Proof. exact blob_oracle_finds. Qed.
+Theorem C14_finds_checkable : forall m Bp B rel, finds_b m Bp B rel = true -> finds m Bp B rel.
+Proof. exact finds_b_sound. Qed.
+Print Assumptions C14_finds_checkable.
+
+(* (13) non-vacuity.  (a) three blobs, three later frames, all / one / no detection
+   withheld, ideal oracle: the hypotheses of (10) hold, and the run is as (10) says *)
+Example C14_example_complete_hyps :
+  movie_hyp_b ex_m ex_B0 (map fst ex_frames) = true /\ oracles_find ex_m ex_B0 ex_frames /\ (length ex_B0 <= 30)%nat.
+Proof. exact complete_example_hyps. Qed.
+
+Example C14_example_complete_run :
+  find_link_model ex_m 0 30 no_pred ex_B0 (map linker_input ex_frames)
+  = Ok [([0; 1; 2]%nat, [[10; 10]; [10; 30]; [30; 20]]);
+        ([2; 1; 0]%nat, [[30; 24]; [10; 26]; [13; 12]]);             (* nothing given: all three relocated *)
+        ([2; 0; 1]%nat, [[27; 27]; [16; 14]; [12; 23]]);             (* blobs 2 and 0 given, blob 1 relocated *)
+        ([0; 1; 2]%nat, [[16; 18]; [12; 23]; [25; 30]])].            (* everything given *)
+Proof. exact complete_example_run. Qed.
+
+(* (b) FindLinker's own image search as the oracle (search_range 5, separation 9,
+   radius 4; one bright pixel per blob): the oracle hypothesis holds (checked by
+   finds_b); everything withheld in the second frame, one blob in the third *)
+Example C14_example_complete_image_hyps :
+  let P := mk_params 2 1 5 9 4 0 false true in
+  let t := Some (Qmake 50 1) in
+  let frames : list bframe :=
+    [([[33; 20]; [26; 28]], [], image_reloc P (spots 40 40 [(33, 20, 100); (26, 28, 100)]) t);
+     ([[34; 21]; [27; 28]], [[27; 28]], image_reloc P (spots 40 40 [(34, 21, 100); (27, 28, 100)]) t)] in
+  movie_hyp_b (fmet P) [[32; 20]; [26; 27]] (map fst frames) = true /\
+  oracles_find (fmet P) [[32; 20]; [26; 27]] frames /\ (2 <= 30)%nat.
+Proof. exact complete_image_example_hyps. Qed.
+
+Example C14_example_complete_image_run :
+  let P := mk_params 2 1 5 9 4 0 false true in
+  let t := Some (Qmake 50 1) in
+  find_link_model (fmet P) 0 30 no_pred [[32; 20]; [26; 27]]
+    [([], image_reloc P (spots 40 40 [(33, 20, 100); (26, 28, 100)]) t);
+     ([[27; 28]], image_reloc P (spots 40 40 [(34, 21, 100); (27, 28, 100)]) t)]
+  = Ok [([0; 1]%nat, [[32; 20]; [26; 27]]); ([0; 1]%nat, [[33; 20]; [26; 28]]); ([1; 0]%nat, [[27; 28]; [34; 21]])].
+Proof. exact complete_image_example_run. Qed.
